@@ -67,3 +67,41 @@ func cellValues(addr ssa.Value) ([]ssa.Value, bool) {
 	simpleCellUse(cell, ci, map[ssa.Value]bool{})
 	return ci.vals, ci.simple
 }
+
+// structCellValues: for a local struct variable that is only written as a whole and
+// whose fields are only read, the values stored into it.
+func structCellValues(addr ssa.Value) ([]ssa.Value, bool) {
+	al, ok := addr.(*ssa.Alloc)
+	if !ok || al.Referrers() == nil {
+		return nil, false
+	}
+	var vals []ssa.Value
+	for _, r := range *al.Referrers() {
+		switch x := r.(type) {
+		case *ssa.Store:
+			if x.Addr != al {
+				return nil, false
+			}
+			vals = append(vals, x.Val)
+		case *ssa.UnOp:
+			if x.Op != token.MUL {
+				return nil, false
+			}
+		case *ssa.FieldAddr:
+			if x.Referrers() == nil {
+				return nil, false
+			}
+			for _, r2 := range *x.Referrers() {
+				if u, ok := r2.(*ssa.UnOp); !ok || u.Op != token.MUL {
+					if _, dbg := r2.(*ssa.DebugRef); !dbg {
+						return nil, false
+					}
+				}
+			}
+		case *ssa.DebugRef:
+		default:
+			return nil, false
+		}
+	}
+	return vals, true
+}
